@@ -141,6 +141,10 @@ def worker(args):
                 small = sx.shrink(list(hist) + [r], lambda h: fails(h[:-1]))[:-1]
                 a, _ = inside(env, fixture, small, r); b = reference(env, fixture, small, [r])[0]
                 sig = '%s|%s|%s|in-session=%s fresh=%s' % (rel, sx.kinds(small) or '-', readsig(env, r), cls(a), cls(b))
+                if small and small[-1][0] == 'objflush' and r[0] == 'r_ccount' and not sx.has_self_link(small):
+                    # one root cause whatever the model: obj.flush() writes the object's new link but leaves it in the
+                    # pending added/removed set of the collection on the other side
+                    sig = '*|link-change>obj.flush()|r_ccount|pending link counted again after obj.flush()'
                 presigs[pre] = sig
                 sub.violation(sig, dict(model=name, fixture=fixture, history=small, read=r, in_session=a, fresh_session=b),
                               'after %r the read %r answers %r inside the session but %r from the committed database' % (small, r, a, b))
